@@ -66,6 +66,7 @@ type contact struct {
 	host int
 	path string
 	mode mode
+	at   time.Time
 }
 
 // pool is a set of real listeners owned by one worker; cases on a pool run one
@@ -106,7 +107,7 @@ func (p *pool) serve(idx int, w http.ResponseWriter, r *http.Request) {
 	p.mu.Lock()
 	m := p.modes[idx]
 	locs := p.locs
-	p.contacts = append(p.contacts, contact{idx, r.Method + " " + r.URL.Path, m})
+	p.contacts = append(p.contacts, contact{idx, r.Method + " " + r.URL.Path, m, time.Now()})
 	p.mu.Unlock()
 	switch m {
 	case mReset:
@@ -360,10 +361,13 @@ func distinctHosts(cs []contact, filter func(contact) bool) []int {
 	return out
 }
 
-// slowCall is the watchdog: the clients' own HTTP timeouts start at 5s; a call
-// that took this long may have hit one, which looks like a network failure the
-// script did not ask for. Such a case is repeated once, then inconclusive.
-const slowCall = 2500 * time.Millisecond
+// slowGap is the watchdog: the clients' own HTTP timeouts start at 5s and a
+// timed-out request looks like a network failure the script did not ask for.
+// A request lasts at most from the arrival of the previous request (or the start
+// of the call) to the arrival of the next one (or the end of the call), i.e. two
+// consecutive gaps; when every gap stays below slowGap no request can have hit a
+// 5s timeout. Otherwise the case is repeated once, then reported inconclusive.
+const slowGap = 2 * time.Second
 
 func runCase(p *pool, c *hcase, callSeq *int) (fs []finding, st stats, slow bool) {
 	var listed []string
@@ -434,7 +438,14 @@ func runCase(p *pool, c *hcase, callSeq *int) (fs []finding, st stats, slow bool
 		}
 		contacts := p.take()
 		resolved, failed := rl.take()
-		if time.Since(began) > slowCall {
+		prev := began
+		for _, ct := range contacts {
+			if ct.at.Sub(prev) > slowGap {
+				return nil, st, true
+			}
+			prev = ct.at
+		}
+		if time.Since(prev) > slowGap {
 			return nil, st, true
 		}
 		st.calls++
@@ -670,7 +681,7 @@ func TestC25(t *testing.T) {
 
 	const poolSize = 36
 	const nw = 8
-	nCases := run.N(2400, 40000)
+	nCases := run.N(2400, 24000)
 	base := run.Rand("cases").Int63()
 	replay := run.ReplayCase()
 
@@ -705,7 +716,7 @@ func TestC25(t *testing.T) {
 					fs, st, slow = runCase(p, c, &callSeq)
 				}
 				if slow {
-					run.Inconclusive(id + ": a cluster request took longer than 2.5s twice (machine overloaded?); its request log is not judged")
+					run.Inconclusive(id + ": an HTTP request of a cluster call may have run into the client timeout twice (machine overloaded?); its request log is not judged")
 					continue
 				}
 				failing := 0
